@@ -252,6 +252,25 @@ func (c *RawClient) buildRequest(op *Op, withAuth bool, attempt int) ([]byte, [1
 		mt = stun.NewType(methodConnect, stun.ClassRequest)
 		a := c.peerAddr(op.A.Peer)
 		body = append(body, aPeer(a.IP, a.Port))
+	case "weird":
+		// a properly authenticated request of method op.A.S whose body is exactly the raw
+		// attributes of op.A.Raw ("tttt:hex;tttt:hex"): what the handlers parse after the
+		// credentials have been accepted
+		meth := map[string]stun.Method{"allocate": stun.MethodAllocate, "refresh": stun.MethodRefresh, "createperm": stun.MethodCreatePermission,
+			"chanbind": stun.MethodChannelBind, "connect": methodConnect, "connbind": methodConnBind}[op.A.S]
+		mt = stun.NewType(meth, stun.ClassRequest)
+		for _, f := range strings.Split(op.A.Raw, ";") {
+			var t int
+			var hx string
+			if i := strings.IndexByte(f, ':'); i > 0 {
+				fmt.Sscanf(f[:i], "%x", &t)
+				hx = f[i+1:]
+			} else {
+				continue
+			}
+			v, _ := hex.DecodeString(hx)
+			body = append(body, rawAttr{stun.AttrType(t), v})
+		}
 	default:
 		Fatalf("buildRequest: unknown kind %s", op.Kind)
 	}
@@ -344,7 +363,7 @@ func (c *RawClient) Do(op *Op) {
 	c.mu.Lock()
 	defer c.mu.Unlock()
 	switch op.Kind {
-	case "binding", "allocate", "refresh", "createperm", "chanbind", "connect":
+	case "binding", "allocate", "refresh", "createperm", "chanbind", "connect", "weird":
 		mode := op.A.Cred
 		if mode == "" {
 			mode = "ok"
